@@ -32,7 +32,9 @@ def handleCodec (cmd : String) (args : List SExp) : String :=
   | "seeddb", [f] =>
     match f.bytes? with
     | some file =>
-      let db := SeedDb.load [] file
+      match SeedDb.load [] file with
+      | .error e => "e:" ++ e.name
+      | .ok db =>
       "ok " ++ ",".intercalate (db.map fun (k, v) => toString k ++ ":" ++ toHexW v) ++ " " ++
         (match SeedDb.save db with | some b => toHexW b | none => "overflow")
     | none => "bad-args"
